@@ -352,7 +352,8 @@ def check_first_parse(ctx, rng):
             ctx.violation('wellformed-value', {'data': data.decode('utf-8')}, f'{name}: {got!r} vs {v!r}', cls)
 
 
-HOSTILE = [b'BEGIN:VCALENDAR\r\nBEGIN:VEVENT\r\nRRULE:freq=daily;count=10;byday=mo;Until=20241224T000000Z\r\nrrule:Freq=Weekly;ByMonth=3,4;wkst=su\r\nEND:VEVENT\r\nEND:VCALENDAR\r\n',
+HOSTILE = [b'BEGIN:VCALENDAR\r\nBEGIN:VEVENT\r\nRRULE:freq=daily;count=10;byday=mo;Until=20241224T000000Z\r\nEND:VEVENT\r\nEND:VCALENDAR\r\n',
+           b'BEGIN:VCALENDAR\r\nBEGIN:VEVENT\r\nrrule:Freq=Weekly;ByMonth=3,4;wkst=su;count=4;interval=2\r\nEND:VEVENT\r\nBEGIN:VTODO\r\nRRULE:freq=monthly;bymonthday=-1,15;bysetpos=1\r\nEND:VTODO\r\nEND:VCALENDAR\r\n',
            b'BEGIN:VCALENDAR\r\nBEGIN:VEVENT\r\nCOMMENT:\r\nCOMMENT:second\r\nCOMMENT:\r\nPERCENT-COMPLETE:0\r\nSEQUENCE:0\r\nSEQUENCE:5\r\nX-N:\r\nX-N:0\r\nBEGIN:VALARM\r\nTRIGGER:PT0S\r\nREPEAT:0\r\nREPEAT:2\r\nBEGIN:X-DEEP\r\nX-A:1\r\nBEGIN:X-DEEPER\r\nX-B:2\r\nEND:X-DEEPER\r\nEND:X-DEEP\r\nEND:VALARM\r\nEND:VEVENT\r\nEND:VCALENDAR\r\n',
            b'BEGIN:VCALENDAR\r\nBEGIN:VEVENT\r\nGEO:48.85837009999;-122.08293249\r\nEND:VEVENT\r\nBEGIN:VTODO\r\nGEO:-0.00000049;179.9999996\r\nEND:VTODO\r\nEND:VCALENDAR\r\n',
            b'BEGIN:VCALENDAR\r\nBEGIN:VEVENT\r\nDTSTART:08000102T030405Z\r\nDTEND:00010101T000000\r\nRDATE;VALUE=DATE:09991231,00010101\r\nDUE;VALUE=DATE:00990101\r\nEND:VEVENT\r\nBEGIN:X-OLD\r\nDTSTART:00010101T000000\r\nEND:X-OLD\r\nEND:VCALENDAR\r\n',
